@@ -677,6 +677,19 @@ def gen_c05_client(rng, thorough=False):
             steps = [cmd("enable"), dict(st)] + [dict(b) for b in base] + [deliver(n) for n in pat]
             steps += [dict(st2), reply(good_reply(rng, st2), unit=1)]
             scs.append(scenario(len(scs), steps, tag="c05-client-chunking"))
+    # a reply delivered in two segments with the request's deadline and the NEXT request in between: the second segment
+    # still belongs to the first (stale) frame, and the next reply is framed from its own first byte
+    for cut in (1, 4, 6, 7, 8, 9, 12):
+        st = submit(1, 3, 1, 0, 4, (), 50)
+        st2 = rand_request(rng, 2, timeout=1000, unit=1)
+        steps = [cmd("enable"), st, reply(good_reply(rng, st), unit=1, hold=True), deliver(cut), tick(50), st2, deliver(0),
+                 reply(good_reply(rng, st2), unit=1)]
+        st3 = rand_request(rng, 3, timeout=1000, unit=1)
+        steps += [st3, reply(good_reply(rng, st3), unit=1)]
+        scs.append(scenario(len(scs), steps, tag=f"c05-client-late-segment@{cut}-after-next-request"))
+        # the same while idle: a frame trickles in with no request outstanding, the next request is sent in between
+        steps = [cmd("enable"), reply([3, 2, 0, 1], unit=1, txrel=-1, hold=True), deliver(cut), st2, deliver(0), reply(good_reply(rng, st2), unit=1)]
+        scs.append(scenario(len(scs), steps, tag=f"c05-client-idle-trickle@{cut}-then-request"))
     scs += gen_cut_frame_then_reconnect(rng, tagp="c05-client")
     for i, x in enumerate(scs):
         x["id"] = i
@@ -1100,6 +1113,21 @@ def gen_cut_frame_then_reconnect(rng, cuts=(1, 3, 6, 7, 8, 9, 10), tagp="cut"):
                     st2 = rand_request(rng, 10 + i, timeout=100, unit=1)
                     steps += [st2, tick(5), reply(good_reply(rng, st2), unit=1)]
                 scs.append(scenario(len(scs), steps, tag=f"{tagp}-frame-cut@{cut}-{how}-{while_}-then-reconnect"))
+        # ... and when the connection is given up without any I/O or framing error: the request times out with the
+        # reply half received, then the user disables / enables the channel, or the consecutive-timeout limit is reached
+        for how in ("disable-enable", "maxtimeouts"):
+            steps = [cmd("enable")]
+            st = submit(1, 3, 1, 0, 4, (), 100)
+            steps += [st, reply(good_reply(rng, st), unit=1, hold=True), deliver(cut), tick(100)]
+            if how == "disable-enable":
+                steps += [cmd("disable"), cmd("new_conn"), cmd("enable")]
+            else:
+                steps += [cmd("new_conn")]
+            for i in range(3):
+                st2 = rand_request(rng, 10 + i, timeout=100, unit=1)
+                steps += [st2, tick(5), reply(good_reply(rng, st2), unit=1)]
+            scs.append(scenario(len(scs), steps, max_timeouts=1 if how == "maxtimeouts" else 0,
+                                tag=f"{tagp}-frame-cut@{cut}-{how}-then-reconnect"))
     return scs
 
 
